@@ -228,6 +228,11 @@ WRITER_ACTIONS = ["Write", "IntWrite", "PtrWrite", "Flush", "FlushDefer", "Check
 
 def writer_histories(rep, tier, seed, prefix, shards, per_shard, ops=30, big=True):
     paths = _hist_shards(rep, "writer-hist", ["--ops", str(ops)], prefix, shards, per_shard, seed)
+    if big:
+        # writers built by the real constructors (from_write / from_boxed_dyn_write, 16 KiB buffer) with writes around
+        # that capacity; few operations per history (TLC handles the 10^4..10^5 byte sequences, but not thousands of them)
+        nb = 4 if tier == QUICK else 12
+        paths += _hist_shards(rep, "writer-hist", ["--big", "--ops", "8"], prefix + "big", nb, 12 if tier == QUICK else 150, seed + 1)
     res = validate_traces(prefix, "Trace_Writer", "Trace_Writer.cfg", paths)
     _report_rejects(rep, "Trace_Writer", res["rejected"],
                     "vh writer-hist --seed %d (history id in reset record); ./check %s --replay <this file>" % (seed, rep.prop))
